@@ -695,7 +695,10 @@ func uriTemplate(v ssa.Value) string {
 		}
 	case *ssa.Call:
 		// a module helper that builds the uri from its parameters
-		if rets, _ := eng.ReturnedValues(x, 0); len(rets) == 1 {
+		if rets, g := eng.ReturnedValues(x, 0); len(rets) == 1 {
+			if t, ok := uriFold(x, g, rets[0]); ok {
+				return t
+			}
 			return uriTemplate(rets[0])
 		}
 		if eng.CalleeName(x.Common()) == "fmt.Sprintf" {
@@ -714,6 +717,88 @@ func uriTemplate(v ssa.Value) string {
 		}
 	}
 	return "{}"
+}
+
+// uriFold renders a helper that joins its variadic string arguments onto a prefix
+// (uri := prefix; for _, e := range elems { uri += "/" + e }): at this call site the loop runs
+// once per argument actually passed.
+func uriFold(call *ssa.Call, g *ssa.Function, rv ssa.Value) (string, bool) {
+	ph, ok := rv.(*ssa.Phi)
+	if !ok || len(ph.Edges) != 2 || g == nil || !g.Signature.Variadic() || len(g.Params) == 0 {
+		return "", false
+	}
+	vp := g.Params[len(g.Params)-1]
+	var flatten func(v ssa.Value) []ssa.Value
+	flatten = func(v ssa.Value) []ssa.Value {
+		if b, ok := v.(*ssa.BinOp); ok && b.Op == token.ADD {
+			return append(flatten(b.X), flatten(b.Y)...)
+		}
+		return []ssa.Value{v}
+	}
+	var init ssa.Value
+	var step []ssa.Value
+	for _, e := range ph.Edges {
+		parts := flatten(e)
+		if len(parts) > 1 && parts[0] == ssa.Value(ph) {
+			step = parts[1:]
+		} else {
+			init = e
+		}
+	}
+	if init == nil || step == nil {
+		return "", false
+	}
+	// the arguments passed for the variadic parameter, in order
+	var actuals []ssa.Value
+	last := call.Call.Args[len(call.Call.Args)-1]
+	if !eng.IsNilConst(last) {
+		sl, ok := last.(*ssa.Slice)
+		if !ok {
+			return "", false
+		}
+		al, ok := sl.X.(*ssa.Alloc)
+		if !ok {
+			return "", false
+		}
+		arr, ok := al.Type().(*types.Pointer).Elem().(*types.Array)
+		if !ok {
+			return "", false
+		}
+		actuals = make([]ssa.Value, arr.Len())
+		for _, ref := range *al.Referrers() {
+			ia, ok := ref.(*ssa.IndexAddr)
+			if !ok {
+				continue
+			}
+			k, isK := eng.ConstInt(ia.Index)
+			if !isK || k < 0 || int(k) >= len(actuals) {
+				return "", false
+			}
+			for _, r2 := range *ia.Referrers() {
+				if st, ok := r2.(*ssa.Store); ok {
+					actuals[k] = st.Val
+				}
+			}
+		}
+	}
+	out := uriTemplate(init)
+	for _, a := range actuals {
+		for _, part := range step {
+			if s, isC := eng.ConstString(part); isC {
+				out += s
+				continue
+			}
+			// the loop element: elems[i]
+			if u, ok := part.(*ssa.UnOp); ok {
+				if ia, ok := u.X.(*ssa.IndexAddr); ok && ia.X == ssa.Value(vp) && isRangeCounter(ia.Index) && a != nil {
+					out += uriTemplate(a)
+					continue
+				}
+			}
+			out += "{}"
+		}
+	}
+	return out, true
 }
 
 func segMatch(clientT, routeT string) bool {
@@ -1091,6 +1176,29 @@ func (c *Ctx) c14Fields(handlers []*ssa.Function) {
 					}
 				}
 			}
+			// a field left out of the literal and filled in afterwards (reply.HTML = str):
+			// an assignment, in the same handler, to that field of a value of the model type
+			later := map[string]ast.Expr{}
+			ast.Inspect(fd, func(n2 ast.Node) bool {
+				as, ok := n2.(*ast.AssignStmt)
+				if !ok || len(as.Lhs) != len(as.Rhs) {
+					return true
+				}
+				for i, lh := range as.Lhs {
+					sel, ok := lh.(*ast.SelectorExpr)
+					if !ok || as.Pos() < cl.End() {
+						continue
+					}
+					bt := info.TypeOf(sel.X)
+					if pt, isP := bt.(*types.Pointer); isP {
+						bt = pt.Elem()
+					}
+					if bt != nil && types.Identical(bt, named) {
+						later[sel.Sel.Name] = as.Rhs[i]
+					}
+				}
+				return true
+			})
 			var missing, wrong []string
 			for i := 0; i < st.NumFields(); i++ {
 				f := st.Field(i)
@@ -1098,6 +1206,9 @@ func (c *Ctx) c14Fields(handlers []*ssa.Function) {
 					continue
 				}
 				val, ok := set[f.Name()]
+				if !ok {
+					val, ok = later[f.Name()]
+				}
 				if !ok {
 					missing = append(missing, f.Name())
 					continue
